@@ -516,4 +516,30 @@ theorem sf_corr_strictAntiOn : StrictAntiOn hk_sf_corr (Set.Ioo 0 1) := by
     rw [e]
     linarith
 
+/-! ## D. non-vacuity (tests, not properties) -/
+
+example : (tail ([1, 2, 4] : List ℚ) [0, 3, 5, 9]).widths = [3 / 2, 3] := by decide +kernel
+example : (tail ([1, 2, 4] : List ℚ) [0, 3, 5, 9]).distribution = [3, 1] := by decide +kernel
+example : (tail ([1, 2, 4] : List ℚ) [0, 3, 5, 9]).cumulative = [3, 5] := by decide +kernel
+example : List.zipWith (· * ·) (tail ([1, 2, 4] : List ℚ) [0, 3, 5, 9]).distribution (diff [1, 2, 4])
+    = diff (([0, 3, 5, 9] : List ℚ).take 3) := by decide +kernel
+/-- the guard of C8 is needed: with a repeated width the distribution entry is the totalised `x/0 = 0` and the identity fails -/
+example : List.zipWith (· * ·) (tail ([1, 1] : List ℚ) [0, 3]).distribution (diff [1, 1])
+    ≠ diff (([0, 3] : List ℚ).take 2) := by decide +kernel
+example : reportedWidth "slit" (1 / 4 : ℚ) 1 = some (3 / 4) := by decide +kernel
+example : reportedWidth "sphere" (1 / 4 : ℚ) 1 = some (7 / 4) := by decide +kernel
+example : reportedWidth "cone" (1 / 4 : ℚ) 1 = none := by decide +kernel
+example : microWindow ([1 / 10, 3 / 20, 9 / 50, 1 / 2] : List ℚ) (1 / 5) none = some (0, 2) := by decide +kernel
+
+/-- the guards of A3/A4 are satisfiable: d = 0.32, l = 1 -/
+example : hk_slit_potential (8 / 25) 1 1 1 1 1 1 < 0 :=
+  hk_slit_negative _ _ _ _ _ _ _ (by norm_num) (by norm_num) (by norm_num) (by norm_num)
+example : hk_slit_potential (8 / 25) 1 1 1 1 1 1 < hk_slit_potential (8 / 25) 1 1 1 1 1 2 :=
+  hk_slit_strictMonoOn (8 / 25) 1 1 1 1 1 (by norm_num) (by norm_num) (by norm_num)
+    (by norm_num [Set.mem_Ioi]) (by norm_num [Set.mem_Ioi]) (by norm_num)
+example : hk_sf_corr (1 / 2) < 0 := sf_corr_neg _ (by norm_num) (by norm_num)
+example : hk_sf_corr (3 / 4) < hk_sf_corr (1 / 2) :=
+  sf_corr_strictAntiOn (by norm_num [Set.mem_Ioo]) (by norm_num [Set.mem_Ioo]) (by norm_num)
+example : hk_volume_adsorbed 2 28 (4 / 5) = 7 / 100 := by unfold hk_volume_adsorbed; norm_num
+
 end PgVerif.Props.C17
